@@ -82,7 +82,7 @@ EXPECTED_BRANCHES_BASE = (['steps/{}/{}'.format(f, n) for f in ('list', 'tuple',
 
 def EXPECTED_BRANCHES_ALL(ctx):
     return (list(EXPECTED_BRANCHES_BASE) + direct_branches() + sorted(set(e[0] for e in edge_cases()))
-            + list(GROUP_BRANCHES))
+            + list(GROUP_BRANCHES) + route_branches() + ['route/model-compared', 'route/moreau-bridge'])
 MODEL_TOKENS = {'l1', 'l1l2', 'l2', 'l2sq', 'ccl1', 'ccl1l2', 'ccl2sq', 'box', 'const', 'izero', 'linf',
                 'cclinf', 'simplex', 'sumc', 'huber', 'huberg', 'klcc', 'trans', 'argscale', 'lscale', 'quad',
                 'conj', 'sep', 'nil', 'comp'}
@@ -476,6 +476,8 @@ def build(spec):
     kind = spec[0]
     if kind == 'direct':
         return build_direct(spec)
+    if kind == 'route':
+        return build_route(spec)
     Z = zoo()
     eps = float(np.finfo(float).resolution * 10)
     lam_f = lambda lam: float(lam * (1 - eps))  # noqa  (fudged lam of the conj proximals)
@@ -1819,6 +1821,7 @@ def run(ctx, deep=False):
                          stream='simplex-feasibility')
     run_malformed(ctx)
     run_group_objective(ctx)
+    run_routes(ctx)
     ctx.extra['functional_labels_exercised'] = len(seen_labels)
     ctx.extra['unhit_model_branches'] = sorted(t for t in MODEL_TOKENS
                                                if ('model/' + t) not in ctx.branches)
@@ -2053,6 +2056,339 @@ def run_group_objective(ctx):
             ctx.hit('group-objective/' + ('exact' if exact else 'tolerance'))
 
 
+# ---------------------------------------------------------------------------
+# stream `routes` (round 5): every OTHER way the public API hands out a functional with a proximal
+# (convex_conj of every class, SeparableSum indexing, operator overloads, simple_functional,
+# proximal_nonnegativity, MoreauEnvelope) -- measured as never entered by tools/covmap.py.
+
+FINITE_EVERYWHERE = ('L1Norm', 'L2Norm', 'L2NormSquared', 'LpNorm', 'GroupL1Norm', 'ConstantFunctional',
+                     'ZeroFunctional', 'NuclearNorm', 'Huber')
+
+
+def _route_flags(f):
+    """(indicator, restricted) of a functional returned by the real code, from its class."""
+    nm = type(f).__name__
+    inner = f
+    while nm in ('FunctionalLeftScalarMult', 'FunctionalRightScalarMult', 'FunctionalTranslation',
+                 'FunctionalScalarSum'):
+        inner = inner.functional if hasattr(inner, 'functional') else inner.left
+        nm = type(inner).__name__
+    ind = nm.startswith('Indicator')
+    return ind, (not ind) and nm not in FINITE_EVERYWHERE
+
+
+def _conj_bases(rng):
+    """Base specs whose `.convex_conj` is taken (flat, weighted, discretised and power spaces; the
+    spaces of the open findings C07-F1/F1b/F7 are left to their own strata)."""
+    out = []
+    for k in ('rn3', 'rn4_wconst2', 'discr4_cell0.25'):
+        n = fsize(zoo()[k])
+        out += [['L1Norm', k], ['L2Norm', k], ['L2NormSquared', k], ['LpNorm', k, 1], ['LpNorm', k, 2],
+                ['LpNorm', k, 'inf'], ['IndicatorLpUnitBall', k, 1], ['IndicatorLpUnitBall', k, 2],
+                ['IndicatorLpUnitBall', k, 'inf'], ['ConstantFunctional', k, 1.5], ['ZeroFunctional', k],
+                ['IndicatorZero', k, 0], ['IndicatorZero', k, 2],
+                ['KullbackLeibler', k, None], ['KullbackLeibler', k, pvec(rng, n, True)],
+                ['KullbackLeiblerConvexConj', k, pvec(rng, n, True)],
+                ['KullbackLeiblerCrossEntropy', k, pvec(rng, n, True)],
+                ['KullbackLeiblerCrossEntropyConvexConj', k, None],
+                ['Huber', k, 0.5], ['Huber', k, 2.0],
+                ['lscale', 2.0, ['L1Norm', k], 'float'], ['rscale', -2.0, ['L2NormSquared', k]],
+                ['ssum', 1.5, ['L1Norm', k]], ['trans', dvec(rng, n, -8, 8), ['L1Norm', k]],
+                ['quad', 0.5, dvec(rng, n, -8, 8), 0, ['L1Norm', k]],
+                ['quad', 0, dvec(rng, n, -8, 8), 0.5, ['L2Norm', k]],
+                ['bregman', dvec(rng, n, 1, 16), dvec(rng, n, -4, 4), ['L2NormSquared', k]],
+                ['dconj', ['L2NormSquared', k]]]
+    for k in ('rn3^2', 'discr4^2_cell0.25'):
+        out += [['GroupL1Norm', k, 1], ['GroupL1Norm', k, 2], ['IndicatorGroupL1UnitBall', k, 'inf'],
+                ['IndicatorGroupL1UnitBall', k, 2], ['Huber', k, 0.5], ['L2Norm', k]]
+    out += [['sep', [['L1Norm', 'rn3'], ['L2NormSquared', 'rn2']]],
+            ['sep', [['Huber', 'rn2', 0.5], ['IndicatorLpUnitBall', 'discr4_cell0.25', 'inf']]],
+            ['NuclearNorm', '(rn3^2)^2', 1], ['IndicatorNuclearNormUnitBall', '(rn3^2)^2', 'inf']]
+    return out
+
+
+def route_specs(rng):
+    out = [['route', 'convex_conj', b] for b in _conj_bases(rng)]
+    sep3 = ['sep', [['L1Norm', 'rn3'], ['L2Norm', 'rn2'], ['Huber', 'discr4_cell0.25', 0.5]]]
+    out += [['route', 'getitem', sep3, i] for i in (0, 1, 2, -1, [0, 2], [1, 3], [0, 3])]
+    for k in ('rn3', 'rn4_wconst2', 'discr4_cell0.25'):
+        n = fsize(zoo()[k])
+        out += [['route', 'op', ['L1Norm', k], 'sub', 1.5], ['route', 'op', ['Huber', k, 0.5], 'add', -2.0],
+                ['route', 'op', ['L2Norm', k], 'radd', 3.0], ['route', 'op', ['L1Norm', k], 'rmul', 2.0],
+                ['route', 'op', ['L1Norm', k], 'rmul0', 0.0], ['route', 'op', ['L2NormSquared', k], 'mul0', 0.0],
+                ['route', 'op', ['L2NormSquared', k], 'mul', -0.5], ['route', 'op', ['L1Norm', k], 'neg-sub', 1.0],
+                ['route', 'simple', k, 'l1'], ['route', 'simple', k, 'l2sq'], ['route', 'simple', k, 'conj'],
+                ['route', 'nonneg', k], ['route', 'moreau', ['L1Norm', k], 0.5],
+                ['route', 'moreau', ['IndicatorBox', k, -0.5, 1.25], 2.0]]
+        out += [['route', 'noprox', k, w] for w in ('sum', 'product', 'quotient', 'quadform', 'infconv',
+                                                    'vecmult', 'lp3', 'lp0', 'lp-inf', 'simple', 'default',
+                                                    'simplex-conj', 'sumc-conj', 'infconv-conj',
+                                                    'vecmult-conj', 'quadform-conj')]
+    out += [['route', 'nonneg', 'rn3^2'], ['route', 'op', ['GroupL1Norm', 'rn3^2', 2], 'sub', 0.5]]
+    return out
+
+
+ROUTE_BRANCHES = None
+
+
+def route_branches():
+    global ROUTE_BRANCHES
+    if ROUTE_BRANCHES is None:
+        rng = _random.Random(0)
+        names = set()
+        for sp_ in route_specs(rng):
+            names.add(route_tag(sp_))
+        ROUTE_BRANCHES = sorted(names)
+    return ROUTE_BRANCHES
+
+
+def route_tag(spec):
+    name = spec[1]
+    if name == 'convex_conj':
+        b = spec[2]
+        return 'route/convex_conj/' + (b[0] if b[0] not in ('LpNorm', 'IndicatorLpUnitBall', 'GroupL1Norm',
+                                                            'IndicatorGroupL1UnitBall')
+                                       else '{}:{}'.format(b[0], b[2]))
+    if name == 'getitem':
+        return 'route/getitem/' + ('index' if isinstance(spec[3], int) else 'slice')
+    if name == 'op':
+        return 'route/op/' + spec[3]
+    if name in ('simple', 'noprox'):
+        return 'route/{}/{}'.format(name, spec[3])
+    return 'route/' + name
+
+
+def build_route(spec):
+    """['route', name, ...] -> Case built through the named public route of the real code."""
+    import odl
+    import odl.solvers.functional.default_functionals as S
+    import odl.solvers.functional.functional as F
+    import odl.solvers.nonsmooth.proximal_operators as PO
+    name = spec[1]
+    lab = route_tag(spec)[len('route/'):]
+    if name in ('convex_conj', 'getitem', 'op', 'moreau'):
+        base = build(spec[2])
+        f0 = base.fobj
+        if f0 is None:
+            raise ValueError('base has no functional object')
+        tree, moreau, skey = None, None, base.skey
+        if name == 'convex_conj':
+            f = f0.convex_conj
+            # the conjugate of the conjugate classes is the original class: model tree of that
+            try:
+                f(base.space.zero())
+            except NotImplementedError:
+                moreau = base
+        elif name == 'getitem':
+            ix = spec[3]
+            f = f0[ix] if isinstance(ix, int) else f0[ix[0]:ix[1]]
+            sub = spec[2][1][ix] if isinstance(ix, int) else None
+            if sub is not None:
+                sc = build(sub)
+                tree, skey = sc.tree, sc.skey
+            else:
+                subs = spec[2][1][ix[0]:ix[1]]
+                sc = build(['sep', subs])
+                tree, skey = sc.tree, sc.skey
+        elif name == 'op':
+            how, c = spec[3], spec[4]
+            f = {'sub': lambda: f0 - c, 'add': lambda: f0 + c, 'radd': lambda: c + f0,
+                 'rmul': lambda: c * f0, 'rmul0': lambda: 0 * f0, 'mul0': lambda: f0 * 0,
+                 'mul': lambda: f0 * c, 'neg-sub': lambda: (2 * f0) - c}[how]()
+            if how in ('sub', 'add', 'radd'):
+                tree = base.tree
+        else:
+            sig0 = spec[3]
+            env = S.MoreauEnvelope(f0, sigma=sig0)
+            if env.functional is not f0 or env.sigma != sig0:
+                raise ValueError('MoreauEnvelope does not keep its arguments')
+            # grad e_sigma f (x) = (x - prox_{sigma f}(x)) / sigma: the proximal read back through
+            # the envelope's gradient, judged by the oracle of f with that step
+            grad = env.gradient
+
+            def fac(sg, _g=grad, _s=sig0, _sp=base.space):
+                if sg != _s:
+                    raise ValueError('envelope step is fixed')
+                return odl.IdentityOperator(_sp) - _s * _g
+            c = Case('route:' + lab + '[' + base.label + ']', base.skey, fac, base.feval, None,
+                     indicator=False, restricted=base.indicator or base.restricted,
+                     leaves=('route:' + lab,), fobj=None, has_box=base.has_box)
+            c.fixed_sigma = sig0
+            return c
+        ind, res = _route_flags(f)
+        sp = zoo()[skey] if not skey.startswith('sep(') else f.domain
+        c = Case('route:' + lab + '[' + base.label + ']', skey, lambda sg, _f=f: _f.proximal(sg),
+                 (lambda z, _f=f: _f(z)), tree, indicator=ind, restricted=res, moreau=moreau,
+                 leaves=('route:' + lab,), fobj=f)
+        c.space = f.domain
+        return c
+    skey = spec[2]
+    sp = zoo()[skey]
+    if name == 'nonneg':
+        fac = PO.proximal_nonnegativity(sp)
+        f = S.IndicatorNonnegativity(sp)
+        return Case('route:nonneg', skey, lambda sg: fac(sg), (lambda z: f(z)), ['box', '0', '~'],
+                    indicator=True, leaves=('route:nonneg',), fobj=None)
+    if name == 'simple':
+        which = spec[3]
+        l1, l2sq = S.L1Norm(sp), S.L2NormSquared(sp)
+        if which == 'l1':
+            f = F.simple_functional(sp, fcall=lambda z: l1(z), prox=PO.proximal_l1(sp))
+            ref, tree = l1, ['l1', '1', '~']
+        elif which == 'l2sq':
+            f = F.simple_functional(sp, fcall=lambda z: l2sq(z), grad=lambda z: 2 * z,
+                                    prox=PO.proximal_l2_squared(sp), convex_conj_fcall=lambda z: l2sq(z) / 4,
+                                    convex_conj_grad=lambda z: z / 2,
+                                    convex_conj_prox=PO.proximal_convex_conj_l2_squared(sp))
+            ref, tree = l2sq, ['l2sq', '1', '~']
+        else:
+            f0 = F.simple_functional(sp, fcall=lambda z: l2sq(z), prox=PO.proximal_l2_squared(sp),
+                                     convex_conj_fcall=lambda z: l2sq(z) / 4,
+                                     convex_conj_prox=PO.proximal_convex_conj_l2_squared(sp))
+            f = f0.convex_conj
+            ref, tree = 0.25 * l2sq, ['ccl2sq', '1', '~']
+        return Case('route:simple-' + which, skey, lambda sg, _f=f: _f.proximal(sg), (lambda z, _f=f: _f(z)),
+                    tree, leaves=('route:simple',), fobj=f)
+    raise ValueError('unknown route ' + str(name))
+
+
+def noprox_functional(skey, which):
+    import odl
+    import odl.solvers.functional.default_functionals as S
+    import odl.solvers.functional.functional as F
+    sp = zoo()[skey]
+    l1, l2, l2sq = S.L1Norm(sp), S.L2Norm(sp), S.L2NormSquared(sp)
+    if which == 'sum':
+        return l1 + l2
+    if which == 'product':
+        return F.FunctionalProduct(l1, l2)
+    if which == 'quotient':
+        return F.FunctionalQuotient(l1, l2sq + 1)
+    if which == 'quadform':
+        return S.QuadraticForm(operator=odl.IdentityOperator(sp), vector=sp.one(), constant=1.0)
+    if which == 'infconv':
+        return F.InfimalConvolution(l1, l2sq)
+    if which == 'infconv-conj':      # sum of the two conjugates: a FunctionalSum, no proximal
+        return F.InfimalConvolution(l1, l2sq).convex_conj
+    if which == 'vecmult-conj':
+        return (l2sq * (2 * sp.one())).convex_conj
+    if which == 'quadform-conj':
+        q = S.QuadraticForm(operator=2 * odl.IdentityOperator(sp), vector=sp.one(), constant=1.0)
+        return q.convex_conj
+    if which == 'vecmult':
+        return l1 * sp.one()
+    if which == 'simple':
+        return F.simple_functional(sp, fcall=lambda z: l1(z))
+    if which in ('simplex-conj', 'sumc-conj'):
+        # `convex_conj` of the two projections is documented as not implemented: the property
+        # raises at the attribute itself
+        g = S.IndicatorSimplex(sp) if which == 'simplex-conj' else S.IndicatorSumConstraint(sp)
+
+        class _NoConj(object):
+            def __call__(self, z):
+                return g(z)
+
+            @property
+            def proximal(self):
+                return g.convex_conj.proximal
+        return _NoConj()
+    if which == 'default':
+        class _Plain(F.Functional):
+            def __init__(self):
+                super(_Plain, self).__init__(sp)
+
+            def _call(self, z):
+                return 0.0
+        return _Plain()
+    return S.LpNorm(sp, {'lp3': 3, 'lp0': 0, 'lp-inf': -np.inf}[which])
+
+
+def moreau_bridge(spec, case, sg, xlist, p):
+    """Independent of f*'s own evaluation: Moreau's identity ties the proximal of the conjugate
+    handed out by `.convex_conj` to the proximal of the functional itself,
+    prox_{sigma f*}(x) = x - sigma prox_{f/sigma}(x/sigma).  Returns a problem text or None."""
+    try:
+        base = build(spec[2])
+        xe = unflat(case.space, xlist)
+        via = flat(xe - sg * base.fobj.proximal(1.0 / sg)(xe / sg))
+        dev = float(np.max(np.abs(via - p))) if via.size else 0.0
+        if not dev <= 1e-7 * max(1.0, float(np.max(np.abs(np.asarray(xlist))))):
+            return ('f.convex_conj.proximal(sigma)(x) = {} but x - sigma * f.proximal(1/sigma)(x/sigma) '
+                    '= {}'.format([round(float(v), 9) for v in p[:6]], [round(float(v), 9) for v in via[:6]]))
+    except Exception as e:  # noqa
+        return 'raised {}: {}'.format(type(e).__name__, str(e)[:160])
+    return None
+
+
+def run_routes(ctx):
+    rng = ctx.rng
+    recs, lines = [], []
+    for spec in route_specs(rng):
+        tag = route_tag(spec)
+        if spec[1] == 'noprox':
+            # a functional that does NOT offer a proximal must say so (NotImplementedError), and
+            # must still be evaluable: the boundary of the property's quantifier
+            ctx.case(None)
+            desc = {'spec': spec, 'space': spec[2], 'x_class': 'route'}
+            try:
+                f = noprox_functional(spec[2], spec[3])
+                xe = unflat(zoo()[spec[2]], dvec(rng, fsize(zoo()[spec[2]]), 1, 8))
+                val = 0.0 if spec[3] == 'infconv' else float(f(xe))   # InfimalConvolution: no _call
+                try:
+                    f.proximal
+                    got = 'no exception'
+                except NotImplementedError:
+                    got = None
+                if got is None and val == val:
+                    ctx.hit(tag)
+                else:
+                    report(ctx, 'prox {} space={} sigma=float check=no-proximal'.format(tag, spec[2]),
+                           'a functional without proximal: f.proximal gave {} (NotImplementedError '
+                           'expected), f(x) = {!r}'.format(got, val), desc)
+            except Exception as e:  # noqa
+                report(ctx, 'prox {} space={} sigma=float check=no-proximal'.format(tag, spec[2]),
+                       'raised {}: {}'.format(type(e).__name__, str(e)[:160]), desc)
+            continue
+        try:
+            case = build(spec)
+        except Exception as e:  # noqa
+            ctx.err('build-route:' + type(e).__name__)
+            report(ctx, 'prox {} sigma=float check=raises'.format(tag),
+                   'building the functional through this route raised {}: {}'.format(
+                       type(e).__name__, str(e)[:200]), {'spec': spec})
+            continue
+        case.spec = spec
+        n = fsize(case.space)
+        fixed = getattr(case, 'fixed_sigma', None)
+        for sg in ([fixed] if fixed is not None else [rng.choice([0.5, 1.0, 2.0]), rng.choice([0.25, 1.5])]):
+            xlist = dvec(rng, n, -24, 24, 8) if rng.random() < 0.7 else dvec(rng, n, -4, 4, 8)
+            crng = _random.Random(rng.getrandbits(32))
+            probs, info = check_case(case, sg, xlist, crng, deep=0 if ctx.quick else 1, sk='float')
+            rec = (case, 'float', sg, 'route', xlist, info, probs)
+            ctx.case((case.label, case.skey, 'float', 'route') if info['nontrivial'] else None)
+            if info['status'] == 'ok':
+                ctx.hit(tag)
+            else:
+                ctx.err(info['status'])
+            if spec[1] == 'convex_conj' and info['p'] is not None:
+                msg = moreau_bridge(spec, case, sg, xlist, info['p'])
+                if msg is None:
+                    ctx.hit('route/moreau-bridge')
+                else:
+                    probs.append(('moreau-bridge', msg))
+            for check, text in probs:
+                report(ctx, vkey(case, 'float', check), text, rec_desc(rec))
+            if case.tree is not None and not case.skey.startswith('sep('):
+                line = model_line(case, sg, xlist)
+                if line is not None:
+                    recs.append(rec)
+                    lines.append(line)
+    outs = core.run_driver('C07', lines)
+    for rec, ans in zip(recs, outs):
+        ctx.hit('route/model-compared')
+        compare(ctx, rec, ans)
+
+
 def malformed_specs(rng):
     """Inadmissible parameters / step kinds: the code must raise (or take its documented guard)
     exactly where the model says so.  Outside the property's quantifier: compared, not judged."""
@@ -2166,6 +2502,10 @@ def replay(ctx, case):
     for attempt in range(2):
         probs, info = check_case(c, sg, case['x'], _random.Random(attempt), deep=2,
                                  sk=case.get('sigma_kind'))
+        if case['spec'][0] == 'route' and case['spec'][1] == 'convex_conj' and info['p'] is not None:
+            msg = moreau_bridge(case['spec'], c, sg, case['x'], info['p'])
+            if msg is not None:
+                probs = list(probs) + [('moreau-bridge', msg)]
         if not probs:
             return None
     return '; '.join('{}: {}'.format(a, b) for a, b in probs)
